@@ -20,8 +20,20 @@ def _cls_join(data, finding):
     lines = set()
     for x in 'blr':
         lines |= set(mergelib.source_lines(dec(data[x])))
+    stripped = {y.strip() for y in lines if y.strip()}
+
     def joined(s):
-        return any(s[:i].strip() in {y.strip() for y in lines} and s[i:].strip() in {y.strip() for y in lines} and s[:i].strip() and s[i:].strip() for i in range(1, len(s)))
+        # can s be cut into two or more pieces that are all lines of the inputs?
+        n = len(s)
+        ways = [0] * (n + 1)          # max number of pieces for the prefix, 0 = impossible
+        ok = [False] * (n + 1)
+        ok[0] = True
+        for i in range(1, n + 1):
+            for j in range(i):
+                if ok[j] and s[j:i].strip() in stripped:
+                    ok[i] = True
+                    ways[i] = max(ways[i], ways[j] + 1)
+        return ok[n] and ways[n] >= 2
     return all(joined(s) for s in data.get('invented', []))
 
 
